@@ -330,6 +330,39 @@ var c10fixed = []string{
 	"global L\nx := 1\ny := x / 0\nz := 5\nz",
 }
 
+// c10shadowScripts: a builtin is first used (with a non-constant argument, so the use reaches the compiler), then its
+// name is re-declared at top level in every declaration form, then the name is used with constant arguments (which the
+// optimizer would fold if it still believed the name to be the builtin).
+func c10shadowScripts() []string {
+	var out []string
+	type bi struct{ name, pre, constCall string }
+	bis := []bi{
+		{"len", "len(a)", "len(\"abc\")"}, {"int", "int(a[0])", "int(\"12\")"}, {"string", "string(a[1])", "string(77)"},
+		{"typeName", "typeName(a)", "typeName(1)"}, {"isInt", "isInt(a[2])", "isInt(5)"}, {"char", "char(a[0] + 64)", "char(66)"},
+		{"uint", "uint(a[2])", "uint(3)"}, {"bool", "bool(a[0])", "bool(0)"}, {"float", "float(a[1])", "float(2)"},
+	}
+	for _, b := range bis {
+		decls := []string{
+			b.name + " := func(...s) { return 42 }",
+			"var " + b.name + " = func(...s) { return 43 }",
+			"const " + b.name + " = func(...s) { return 44 }",
+			b.name + ", q := [func(...s) { return 45 }, 1]",
+			"var (\n  q = 1\n  " + b.name + " = func(...s) { return 46 }\n)",
+		}
+		for _, d := range decls {
+			out = append(out, "global L\na := [1, 2, 3]\nn := "+b.pre+"\n"+d+"\nm := "+b.constCall+"\n["+"n, m, "+b.constCall+"]")
+			// the re-declaration happens inside a block / function: the top-level name stays the builtin
+			out = append(out, "global L\na := [1, 2, 3]\nn := "+b.pre+"\nf := func() {\n  "+strings.ReplaceAll(d, "\n", "\n  ")+"\n  return "+b.constCall+"\n}\nm := "+b.constCall+"\n[n, m, f(), "+b.constCall+"]")
+			// no earlier use
+			out = append(out, "global L\n"+d+"\nm := "+b.constCall+"\n[m, "+b.constCall+"]")
+		}
+		// a value, not a function: the later fragment reads the variable
+		out = append(out, "global L\na := [1, 2, 3]\nn := "+b.pre+"\n"+b.name+" := 7\nm := "+b.name+" + 1\n[n, m, "+b.name+"]")
+		out = append(out, "global L\na := [1, 2, 3]\nn := "+b.pre+"\nparam_like := 1\nglobal "+b.name+"\n"+b.name+" = 9\n[n, "+b.name+"]")
+	}
+	return out
+}
+
 func (m c10) Run(c *core.Ctx) {
 	optKinds := []string{"noopt", "default", "limit2"}
 	if c.Replay != nil {
@@ -381,7 +414,7 @@ func (m c10) Run(c *core.Ctx) {
 		}
 	}
 	idx := 0
-	for _, src := range c10fixed {
+	for _, src := range append(append([]string{}, c10fixed...), c10shadowScripts()...) {
 		idx++
 		if idx%c.NBatch != c.Batch {
 			continue
@@ -397,6 +430,10 @@ func (m c10) Run(c *core.Ctx) {
 		DeepRecursion: 10, Faults: 0.004, NoTopReturn: true}
 	for i := 0; i < nprog; i++ {
 		o.MaxStmts = 4 + c.Rng.Intn(8)
+		o.BuiltinShadow = 0
+		if c.Rng.Intn(3) == 0 {
+			o.BuiltinShadow = 0.2
+		}
 		o.Modules = 0
 		if c.Rng.Intn(2) == 0 {
 			o.Modules = 1 + c.Rng.Intn(2)
